@@ -21,7 +21,7 @@ def RULE(tier):
         "counterparty with correct CompIDs: type in {application (MsgType rotating over D, 8, j, AE, a custom type and the session-level Reject 3), Heartbeat, TestRequest, ResendRequest, "
         "SequenceReset-GapFill, SequenceReset-Reset} x MsgSeqNum in {E-2, E-1, E, E+1, E+5} x PossDupFlag in {absent, Y} x "
         f"(for resets) NewSeqNo in {{E-1, E+1, E+4}}: EXHAUSTIVELY all histories of length <= {a} over the full 100-symbol "
-        f"alphabet and of length {b} over a 24-symbol reduction, plus Hypothesis histories up to 12 (quick) / 40 (thorough), plus long histories (one gap followed by 300 frames above E; 14 gaps each closed by a GapFill; "
+        f"alphabet and of length {b} over a 28-symbol reduction (which also holds four garbled SequenceResets: NewSeqNo absent, not a number, absent on a GapFill - the expected number may then move by one at most, never to the frame's own number), plus Hypothesis histories up to 12 (quick) / 40 (thorough), plus long histories (one gap followed by 300 frames above E; 14 gaps each closed by a GapFill; "
         "counters crossing 9, 99, 999, 9999, 999999999, 2^31, 10^18 and ending at 2^63-1). "
         "Reference model = one integer E, an awaiting flag and a watermark. Per frame: on_message is called iff the frame is "
         "an application message numbered exactly E; next_num_in moves by one per accepted frame or to NewSeqNo of an "
@@ -63,7 +63,9 @@ def reduced_alphabet():
     return [("APP", 0, False, 0), ("APP", 1, False, 0), ("APP", -1, True, 0), ("APP", -1, False, 0), ("APP", 5, False, 0), ("APP", 0, True, 0),
             ("HB", 0, False, 0), ("HB", 1, False, 0), ("TR", 0, False, 0), ("TR", 5, False, 0), ("RR", 0, False, 0), ("RR", 1, False, 0),
             ("GF", 0, True, 4), ("GF", 0, False, 1), ("GF", 1, True, 4), ("GF", 5, True, 4), ("GF", -1, True, 4), ("GF", 0, True, -1),
-            ("RS", 0, False, 4), ("RS", 0, False, -1), ("RS", 1, False, 4), ("RS", -2, False, 4), ("HB", -1, True, 0), ("APP", -2, True, 0)]
+            ("RS", 0, False, 4), ("RS", 0, False, -1), ("RS", 1, False, 4), ("RS", -2, False, 4), ("HB", -1, True, 0), ("APP", -2, True, 0),
+            # garbled SequenceReset: NewSeqNo absent / not a number / absent on a GapFill
+            ("RX", 0, False, -1), ("RX", -2, False, -1), ("RX", 1, False, 1), ("RX", -1, False, 4)]
 
 
 class Model:
@@ -116,6 +118,10 @@ def run_history(acc, role, start, hist, origin, counters=None):
                 fr = b.frame("2", n, [(7, 1), (16, 1)], possdup=pd)
             elif t == "GF":
                 fr = b.frame("4", n, [(123, "Y"), (36, new)], possdup=pd)
+            elif t == "RX":
+                # a SequenceReset that names no usable NewSeqNo: field absent (Reset mode), not a number, absent on a GapFill
+                fr = b.frame("4", n, {-1: [], 1: [(36, "abc")], 4: [(123, "Y")]}.get(nw, [(123, "N")]), possdup=pd)
+                flags.add("seqreset-garbled")
             else:
                 fr = b.frame("4", n, [(36, new)] if uid % 2 else [(123, "N"), (36, new)], possdup=pd)
             if off != 0:
@@ -129,7 +135,7 @@ def run_history(acc, role, start, hist, origin, counters=None):
             rrs = [p for _, p in b.written() if ref_get(p, 35) == "2"]
             disc = b.disconnected()
             where = f"step {step_i} {t} n=E{off:+d}{' possdup' if pd else ''}" + (f" NewSeqNo=E{new - E:+d}" if t in ("GF", "RS") else "") + f" (E={E}, awaiting={m.awaiting})"
-            free_reset = t == "RS" and off != 0
+            free_reset = (t == "RS" and off != 0) or (t == "RX" and off != 0 and nw != 4)
             # ---- R1 delivery
             should = t == "APP" and off == 0
             if deliv and not should:
@@ -159,13 +165,18 @@ def run_history(acc, role, start, hist, origin, counters=None):
                     exp = {new} if new > E else {E, E + 1}
                 else:
                     exp = {E}
+            elif t == "RX":
+                # no NewSeqNo to move to: the number may only move by one, and only if the frame was the expected one
+                exp = {E, E + 1} if off == 0 else {E}
             else:  # RS
                 if off == 0:
                     exp = {new} if new > E else {E, E + 1}
                 else:
                     exp = {E, new} if new >= E else {E}
             if E2 not in exp:
-                if t == "RS" and E2 < E:
+                if t == "RX":
+                    bad("R2-garbled-reset-moved-counter", f"{where}: a SequenceReset without a usable NewSeqNo moved the expected number {E} -> {E2}")
+                elif t == "RS" and E2 < E:
                     bad("R2-backward-reset", f"{where}: SequenceReset-Reset lowered the expected number {E} -> {E2}")
                 elif t == "GF" and off > 0:
                     bad("R2-gapfill-above-E", f"{where}: GapFill numbered above E was honoured: {E} -> {E2}")
@@ -211,13 +222,13 @@ def exhaustive(acc, role, start, length, reduced, part, parts):
             run_history(acc, role, start, list(hist), "exhaustive")
 
 
-sym = st.tuples(st.sampled_from(TYPES), st.sampled_from(OFFS), st.booleans(), st.sampled_from(NEWS))
+sym = st.tuples(st.sampled_from(TYPES + ["RX"]), st.sampled_from(OFFS), st.booleans(), st.sampled_from(NEWS))
 sym_biased = st.one_of(sym, st.sampled_from(reduced_alphabet()), st.just(("APP", 0, False, 0)), st.just(("APP", 0, True, 0)))
 
 
 def hyp_shard(acc, n, seed, maxlen):
     strat = st.tuples(st.sampled_from(ROLES), st.sampled_from(STARTS), st.lists(sym_biased, min_size=2, max_size=maxlen))
-    run_given(strat, lambda x: run_history(acc, x[0], x[1], [(t, o, p, (w if t in ("GF", "RS") else 0)) for t, o, p, w in x[2]], "hyp"), n, seed)
+    run_given(strat, lambda x: run_history(acc, x[0], x[1], [(t, o, p, (w if t in ("GF", "RS", "RX") else 0)) for t, o, p, w in x[2]], "hyp"), n, seed)
 
 
 def EXHAUSTIVE(tier):
